@@ -204,7 +204,7 @@ class JnpSearchSortedPlugin(PrimitiveLeafPlugin):
 
         a_dtype: np.dtype[Any] = np.dtype(getattr(a_var.aval, "dtype", np.float32))
         v_dtype: np.dtype[Any] = np.dtype(getattr(v_var.aval, "dtype", a_dtype))
-        compare_dtype: np.dtype[Any] = np.promote_types(a_dtype, v_dtype)
+        compare_dtype: np.dtype[Any] = np.dtype(jnp.promote_types(a_dtype, v_dtype))
 
         a_val = ctx.get_value_for_var(a_var, name_hint=ctx.fresh_name("searchsorted_a"))
         v_val = ctx.get_value_for_var(v_var, name_hint=ctx.fresh_name("searchsorted_v"))
